@@ -10,6 +10,8 @@ MOLS = {
                                                                [-0.36, -0.51, -0.89], [1.75, 0.9, 0.1]])),
     "ethene": (["C", "C", "H", "H", "H", "H"], np.array([[0.0, 0.0, 0.0], [1.33, 0.0, 0.0], [-0.56, 0.93, 0.0], [-0.56, -0.93, 0.0], [1.89, 0.93, 0.0], [1.89, -0.93, 0.0]])),
     "h2s": (["S", "H", "H"], np.array([[0.0, 0.0, 0.0], [1.34, 0.0, 0.0], [-0.05, 1.34, 0.0]])),
+    "i2": (["I", "I"], np.array([[0.0, 0.0, 0.0], [2.67, 0.0, 0.0]])),
+    "ch3i": (["C", "I", "H", "H", "H"], np.array([[0.0, 0.0, 0.0], [2.14, 0.0, 0.0], [-0.36, 1.03, 0.0], [-0.36, -0.51, 0.89], [-0.36, -0.51, -0.89]])),
     # central atom listed last / in the middle: the breadth-first unwrapping then meets predecessors with a larger index
     "water_hho": (["H", "H", "O"], np.array([[0.96, 0.0, 0.0], [-0.24, 0.93, 0.0], [0.0, 0.0, 0.0]])),
     "h2co_hhoc": (["H", "H", "O", "C"], np.array([[-0.55, 0.94, 0.0], [-0.55, -0.94, 0.0], [1.21, 0.0, 0.0], [0.0, 0.0, 0.0]])),
@@ -96,13 +98,16 @@ def has_close_contact(frac_sets, D, min_sep):
     return False
 
 
-def molecular_crystal(rng, number, choice, kinds, max_tries=60, min_sep=2.9, scale=1.0, scatter=False):
+def molecular_crystal(rng, number, choice, kinds, max_tries=60, min_sep=2.9, scale=1.0, scatter=False, dup_labels=False):
     """Crystal of the given setting with the given molecules on general positions, all intermolecular contacts > min_sep
     (bonding threshold is at most ~2.6 A for these elements).  Returns (crystal, description) or (None, reason)."""
     from chmpy.crystal import Crystal, SpaceGroup, AsymmetricUnit
     from chmpy import Element
     sg = SpaceGroup(number, choice=choice)
     nops = len(sg.symmetry_operations)
+    if any(k in ("i2", "ch3i") for k in kinds):
+        min_sep = max(min_sep, 4.3)        # iodine: bonding threshold up to 3.2 A
+        scale *= 1.25
     sc = scale * max(1.0, (nops * len(kinds) / 8.0) ** (1 / 3))
     for _ in range(max_tries):
         cell = cell_for_setting(rng, sg, scale=sc)
@@ -132,6 +137,16 @@ def molecular_crystal(rng, number, choice, kinds, max_tries=60, min_sep=2.9, sca
                     if rng.integers(0, 3) == 0:
                         s_ = sg.symmetry_operations[int(rng.integers(0, nops))]
                         frac[i] = s_.apply(frac[i][None, :])[0] + rng.integers(-2, 3, 3)
-            c = Crystal(cell, sg, AsymmetricUnit([Element[x] for x in els], frac))
+            labels = None
+            if dup_labels:
+                # every molecule numbers its own atoms from 1: labels repeat across the molecules of the asymmetric unit (common in deposited CIFs with Z' > 1)
+                labels, start_ = [], 0
+                for kind in kinds:
+                    cnt = {}
+                    for e_ in MOLS[kind][0]:
+                        cnt[e_] = cnt.get(e_, 0) + 1
+                        labels.append(f"{e_}{cnt[e_]}")
+                labels = np.array(labels)
+            c = Crystal(cell, sg, AsymmetricUnit([Element[x] for x in els], frac, labels=labels))
             return c, {"setting": f"{number}:{choice}", "molecules": list(kinds), "cell": np.round(cell.parameters, 3).tolist(), "frac": np.round(frac, 5).tolist(), "sites_listed_as_symmetry_images": bool(scatter)}
     return None, "no placement found"
